@@ -347,7 +347,10 @@ func (ch *Change) IsAbove(other *Change) bool {
 	if ch.Date != other.Date {
 		return ch.Date < other.Date
 	}
-	return ch.Location.lineno < other.Location.lineno
+	if ch.Location.lineno != other.Location.lineno {
+		return ch.Location.lineno < other.Location.lineno
+	}
+	return ch.Location.Filename < other.Location.Filename
 }
 
 type ChangeAction uint8
